@@ -57,7 +57,7 @@ theorem failed_parse_ignores_rest (st : State) (file : Option String) (skip : Sk
 /-- … and a failing statement that is not an include leaves the state it found: the state after
     the failed call is exactly the state after the prefix. -/
 theorem failing_statement_changes_nothing (st : State) (file : Option String) (skip : SkipSpec)
-    (s : Stmt) (hni : ∀ n f l, s ≠ .incl n (some f) l)
+    (s : Stmt) (hni : ∀ n f l, s ≠ .incl n (some f) l) (hnr : stmtsRegs [s] = [])
     (hf : (applyStmt st file skip s).2.2.2.isSome = true) :
     (applyStmt st file skip s).1 = st := by
   cases s with
@@ -87,8 +87,10 @@ theorem failing_statement_changes_nothing (st : State) (file : Option String) (s
     split
     · rfl
     · split <;> rfl
-  | imp m found line =>
-    simp only [applyStmt]
+  | imp m found line regs =>
+    have hregs : regs = [] := by simpa [stmtsRegs] using hnr
+    subst hregs
+    simp only [applyStmt, registerAll]
     split
     · rfl
     · split <;> rfl
@@ -97,13 +99,49 @@ theorem failing_statement_changes_nothing (st : State) (file : Option String) (s
     | none => simp [applyStmt]
     | some stmts => exact absurd rfl (hni name stmts line)
 
-/-- Parsing never changes the lock state or the registry (and the model has no other ambient state:
-    the active scope and the per-file import tables are not touched by `applyStmts`). -/
+theorem registerAll_changes_registry_only (st : State) (regs : List State.RegReq) :
+    (registerAll st regs).1 = { st with registry := (registerAll st regs).1.registry } := by
+  induction regs generalizing st with
+  | nil => rfl
+  | cons r rest ih =>
+    simp only [registerAll]
+    cases h : st.register r with
+    | error e => rfl
+    | ok st' =>
+      simp only
+      rw [ih st', (State.register_ok h).2]
+
+/-- An import statement whose module registers configurables and then fails (say, one of its names is
+    already taken by a different object) leaves behind what the module body registered up to there — and
+    nothing else: bindings, lock, constants, imports and provenance are those of the prefix. -/
+theorem failing_import_changes_registry_only (st : State) (file : Option String) (skip : SkipSpec)
+    (m : String) (found : Bool) (line : Nat) (regs : List State.RegReq) :
+    (applyStmt st file skip (.imp m found line regs)).1 =
+      { st with registry := (applyStmt st file skip (.imp m found line regs)).1.registry } := by
+  simp only [applyStmt]
+  split
+  · have h := registerAll_changes_registry_only st regs
+    split
+    · rename_i heq; rw [heq] at h; exact h
+    · rename_i heq; rw [heq] at h; exact h
+  · split <;> rfl
+
+/-- Parsing never changes the lock state, and it changes the registry only through what imported modules
+    register: a text none of whose import statements (at any include depth) registers anything leaves the
+    registry as it was (the model has no other ambient state: the active scope and the per-file import
+    tables are not touched by `applyStmts`). -/
 theorem parse_keeps_lock_and_registry (st : State) (file : Option String) (skip : SkipSpec)
     (ss : List Stmt) :
     (parseConfig st file skip ss).st.locked = st.locked ∧
-    (parseConfig st file skip ss).st.registry = st.registry :=
-  ⟨(parseConfig_frame st file skip ss).locked, (parseConfig_frame st file skip ss).registry⟩
+    (stmtsRegs ss = [] → (parseConfig st file skip ss).st.registry = st.registry) :=
+  ⟨(parseConfig_frame st file skip ss).locked, parseConfig_registry st file skip ss⟩
+
+/-- A configurable registered by an imported module is known to every later statement of the same parse:
+    the reference `@name` that was unknown before the import resolves after it. -/
+theorem import_makes_known (st st' : State) (file : Option String) (skip : SkipSpec) (m : String)
+    (line : Nat) (regs : List State.RegReq) (h : registerAll st regs = (st', none)) :
+    applyStmt st file skip (.imp m true line regs) = (st', [m], [], none) := by
+  simp [applyStmt, h]
 
 /-- A semantic error keeps its class and gains one (file, line) entry per include level, innermost
     first; syntax errors carry their own location and are passed through. -/
